@@ -44,6 +44,8 @@ pub struct Script {
     pub injected: usize,
     pub stalled: bool,
     pub offered: Vec<usize>,
+    /// which half returned the most recent Pending: 1 = read, 2 = write
+    pub last_pending: u8,
 }
 
 impl Script {
@@ -127,6 +129,7 @@ impl Transport {
             },
             Some(Ev::Pending) => {
                 s.log.push(Ev::Pending);
+                s.last_pending = 1;
                 RStep::Pending { wake: true }
             },
             Some(Ev::Timeout) => {
@@ -172,6 +175,7 @@ impl Transport {
             },
             Some(WEv::Pending) => {
                 s.wlog.push(WEv::Pending);
+                s.last_pending = 2;
                 RStep::Pending { wake: true }
             },
         }
